@@ -3,7 +3,7 @@
 From Coq Require Import ZArith List Bool Sorted.
 From Bluge Require Import Base.Res Base.Corr Base.UTF8 Gen.ParamsAnalysis
   Analysis.Pipeline Analysis.PipelineProofs Analysis.Tokenizers Analysis.TokenizersProofs
-  Analysis.Filters Analysis.FiltersProofs Analysis.ShingleProofs Analysis.ReverseProofs Analysis.Filters2 Analysis.Filters2Proofs Analysis.CharFilters Analysis.CharFiltersProofs Analysis.Freq Analysis.FreqProofs Analysis.ExamplesProofs.
+  Analysis.Filters Analysis.FiltersProofs Analysis.ShingleProofs Analysis.ReverseProofs Analysis.Filters2 Analysis.Filters2Proofs Analysis.CharFilters Analysis.CharFiltersProofs Analysis.Freq Analysis.FreqProofs Analysis.Merge Analysis.MergeProofs Analysis.ExamplesProofs.
 Import ListNotations.
 Open Scope Z_scope.
 
@@ -369,6 +369,41 @@ Example freq_example :
   snd (token_frequency ex_stream true 100) = 105.
 Proof. exact ex_freq. Qed.
 Print Assumptions freq_example.
+
+(* ---------- TokenFrequencies.MergeAll (composite fields) ---------- *)
+
+(* merging a source map (distinct keys, as TokenFrequency returns them) into a destination map:
+   the merged frequency is the sum, the merged locations are the destination's followed by the
+   source's; the source keeps its terms, frequencies and the offsets/positions of its locations:
+   the one thing the real code changes in the source is FieldVal of its locations (they are
+   shared by pointer and `l.FieldVal = remoteField` rewrites them) *)
+Theorem merge_all_correct : forall (dst : fmap) (remote : list Z) (src : fmap),
+  NoDup (fterms src) ->
+  let '(merged, src') := merge_all dst remote src in
+  (forall term, ffreq_for merged term = ffreq_for dst term + ffreq_for src term) /\
+  (forall term, flocs_for merged term =
+                flocs_for dst term ++ map (fun l => FLoc remote (fl_loc l)) (flocs_for src term)) /\
+  map ft_term src' = map ft_term src /\
+  map ft_freq src' = map ft_freq src /\
+  map (fun e => map fl_loc (ft_locs e)) src' = map (fun e => map fl_loc (ft_locs e)) src /\
+  Forall (fun e => Forall (fun l => fl_field l = remote) (ft_locs e)) src'.
+Proof. exact merge_all_spec. Qed.
+Print Assumptions merge_all_correct.
+
+(* the hypothesis holds of every map TokenFrequency returns *)
+Theorem token_frequency_keys_distinct : forall ts tv start,
+  NoDup (fterms (lift_map (fst (token_frequency ts tv start)))).
+Proof. exact lift_map_nodup. Qed.
+Print Assumptions token_frequency_keys_distinct.
+
+(* two fields sharing the term "ab" (twice each), the first indexed without locations: merged
+   frequency 4, both sources still 2 *)
+Example merge_example :
+  let '(merged, srcs) := merge_seq [] [([102], ex_src1); ([103], ex_src2)] in
+  ffreq_for merged [97;98] = 4 /\ ffreq_for (nth 0 srcs []) [97;98] = 2 /\ ffreq_for (nth 1 srcs []) [97;98] = 2 /\
+  map fl_field (flocs_for merged [97;98]) = [[103]; [103]].
+Proof. exact ex_merge. Qed.
+Print Assumptions merge_example.
 
 (* ---------- match round trip ---------- *)
 
